@@ -143,6 +143,26 @@ def run(ctx: Ctx):
             ctx.ob("R-C15-3", f"{origin}/memo-of-self", ok, "a memo is idempotent only if it caches a function of the object itself", node=fs.node, mod=fs.mod,
                    nontrivial=False)
     # the partial-updaters exception is checked, not just asserted
+    # R-C15-5: module-level one-shot iterators.  `x in NAMES` / iteration *consumes* a map/filter/zip/generator object, so what a call
+    # sees depends on what earlier calls already consumed -- state shared across calls although nothing is ever assigned
+    ONE_SHOT = ("map", "filter", "zip", "iter", "reversed", "enumerate", "itertools.chain", "itertools.islice", "itertools.cycle", "itertools.product")
+    n_mod = 0
+    for mname, m_ in repo.modules.items():
+        if mname == "test_factories":
+            continue
+        for st in m_.tree.body:
+            val = st.value if isinstance(st, (ast.Assign, ast.AnnAssign)) else None
+            if val is None:
+                continue
+            n_mod += 1
+            one_shot = isinstance(val, ast.GeneratorExp) or (isinstance(val, ast.Call) and dotted(val.func) in ONE_SHOT)
+            if one_shot:
+                tgt = norm(st.targets[0]) if isinstance(st, ast.Assign) else norm(st.target)
+                ctx.ob("R-C15-5", f"{mname}.{tgt}/one-shot-iterator", False,
+                       f"module-level `{tgt} = {norm(val)[:50]}` is an iterator: membership tests and loops consume it, so results depend on how often "
+                       "it was used before (wrap it in tuple()/list()/frozenset())", node=st, mod=m_)
+    ctx.ob("R-C15-5", "modules/no-one-shot-iterators", True, f"{n_mod} module-level bindings inspected: none is a map/filter/zip/generator object", node=None,
+           mod=repo.mod("utils"), nontrivial=False)
     # the cleaners a step name can select are pure
     cm = repo.modules.get("clean")
     if cm is not None:
